@@ -142,6 +142,9 @@ func (fr *frame) applyCall(cc *ssa.CallCommon, st *bstate, site ssa.Instruction,
 	if b, ok := cc.Value.(*ssa.Builtin); ok {
 		return fr.builtin(b, cc, args, st, site, rt)
 	}
+	if v, ok := fr.atomicCall(cc, args, st); ok {
+		return v
+	}
 	fr.lockHooks(cc, args, st, true)
 	var spec *FuncSpec
 	var pnames []string
@@ -946,6 +949,9 @@ func (fr *frame) isCtorOf(ts *TypeSpec) bool {
 
 func (fr *frame) assumeTypeInvariants(st *bstate) {
 	f := fr.f
+	if fr.spec != nil && fr.spec.Helper {
+		return
+	}
 	for _, p := range fr.fn.Params {
 		ts := f.e.typeSpecOf(p.Type())
 		if ts == nil || len(ts.Invs) == 0 {
@@ -971,6 +977,9 @@ func (fr *frame) assumeTypeInvariants(st *bstate) {
 
 func (fr *frame) checkTypeInvariants(st *bstate) {
 	f := fr.f
+	if fr.spec != nil && fr.spec.Helper {
+		return
+	}
 	for _, p := range fr.fn.Params {
 		ts := f.e.typeSpecOf(p.Type())
 		if ts == nil || len(ts.Invs) == 0 {
@@ -1161,4 +1170,67 @@ func (fr *frame) checkFrame(st *bstate) {
 		}
 		f.oblige(st, fmt.Sprintf("%s#frame:unchanged:%s", name, key), "frame", nil, goal, "location outside the declared frame is unchanged", fr.spec.Line)
 	}
+}
+
+// atomicCall models the methods of sync/atomic types as plain loads and stores.
+func (fr *frame) atomicCall(cc *ssa.CallCommon, args []Val, st *bstate) (Val, bool) {
+	f := fr.f
+	fn := cc.StaticCallee()
+	if fn == nil || fn.Signature.Recv() == nil || len(args) == 0 {
+		return Val{}, false
+	}
+	pt, ok := fn.Signature.Recv().Type().(*types.Pointer)
+	if !ok {
+		return Val{}, false
+	}
+	k, ok := atomicKind(pt.Elem())
+	if !ok {
+		return Val{}, false
+	}
+	T := pt.Elem()
+	recv := args[0]
+	cur := func() Val {
+		v := f.load(st.heap, recv, T)
+		v.K = k
+		return v
+	}
+	set := func(v Val) {
+		v.K = k
+		st.heap = f.store(st.heap, recv, T, v)
+	}
+	f.exact["atomic."+fn.Name()]++
+	var rt types.Type
+	if fn.Signature.Results().Len() == 1 {
+		rt = fn.Signature.Results().At(0).Type()
+	}
+	switch fn.Name() {
+	case "Load":
+		v := cur()
+		v.T = rt
+		return f.nameVal("atomic.load", v), true
+	case "Store":
+		set(args[1])
+		return Val{K: KUnit}, true
+	case "Swap":
+		old := f.nameVal("atomic.old", cur())
+		set(args[1])
+		old.T = rt
+		return old, true
+	case "Add":
+		if k == KInt {
+			nv := Val{K: KInt, T: rt, Tm: f.c.define("atomic.add", sortInt, app("+", cur().Tm, args[1].Tm))}
+			set(nv)
+			return nv, true
+		}
+	case "CompareAndSwap":
+		if len(args) == 3 {
+			c := cur()
+			okT := f.c.define("atomic.cas", sortBool, f.eqVal(c, Val{K: k, T: c.T, Tm: args[1].Tm}))
+			nv := f.iteVal(okT, Val{K: k, T: c.T, Tm: args[2].Tm}, c)
+			set(nv)
+			return boolVal(okT), true
+		}
+	}
+	f.exact["atomic."+fn.Name()]--
+	return Val{}, false
 }
